@@ -7,19 +7,20 @@ namespace Capella.Query
 
 theorem mem_search (nodes : List Node) (idx : Index) (xts : List Str) (below : Option Nat) (i : Nat) :
     i ∈ search nodes idx xts below ↔
-      (∃ p ∈ idx, typeOk xts p.1 = true ∧ i ∈ p.2) ∧ belowOk nodes below i = true := by
+      (∃ p ∈ idx, typeOk xts p.1 = true ∧ i ∈ p.2) ∧ isPlaceholder nodes i = false ∧
+        belowOk nodes below i = true := by
   unfold search
-  simp only [List.mem_filter, List.mem_flatMap]
+  simp only [List.mem_filter, List.mem_flatMap, Bool.not_eq_true']
   constructor
-  · rintro ⟨⟨p, ⟨hp, ht⟩, hi⟩, hb⟩
-    exact ⟨⟨p, hp, ht, hi⟩, hb⟩
-  · rintro ⟨⟨p, hp, ht, hi⟩, hb⟩
-    exact ⟨⟨p, ⟨hp, ht⟩, hi⟩, hb⟩
+  · rintro ⟨⟨⟨p, ⟨hp, ht⟩, hi⟩, hph⟩, hb⟩
+    exact ⟨⟨p, hp, ht, hi⟩, hph, hb⟩
+  · rintro ⟨⟨p, hp, ht, hi⟩, hph, hb⟩
+    exact ⟨⟨⟨p, ⟨hp, ht⟩, hi⟩, hph⟩, hb⟩
 
 theorem mem_scan (nodes : List Node) (xts : List Str) (below : Option Nat) (i : Nat) :
     i ∈ scan nodes xts below ↔
-      ∃ n, nodes[i]? = some n ∧ n.sem = true ∧ n.xtype ≠ [] ∧ typeOk xts n.xtype = true ∧
-        belowOk nodes below i = true := by
+      ∃ n, nodes[i]? = some n ∧ n.sem = true ∧ n.xtype ≠ [] ∧ n.placeholder = false ∧
+        typeOk xts n.xtype = true ∧ belowOk nodes below i = true := by
   unfold scan
   simp only [List.mem_filter, List.mem_range]
   constructor
@@ -29,8 +30,8 @@ theorem mem_scan (nodes : List Node) (xts : List Str) (below : Option Nat) (i : 
     | some n =>
       rw [hn] at h
       simp only [Bool.and_eq_true, Bool.not_eq_true', List.isEmpty_eq_false_iff] at h
-      exact ⟨n, rfl, h.1.1.1, h.1.1.2, h.1.2, h.2⟩
-  · rintro ⟨n, hn, hs, hx, ht, hb⟩
+      exact ⟨n, rfl, h.1.1.1.1, h.1.1.1.2, h.1.1.2, h.1.2, h.2⟩
+  · rintro ⟨n, hn, hs, hx, hph, ht, hb⟩
     refine ⟨?_, ?_⟩
     · cases Nat.lt_or_ge i nodes.length with
       | inl h => exact h
@@ -39,19 +40,25 @@ theorem mem_scan (nodes : List Node) (xts : List Str) (below : Option Nat) (i : 
         rw [this] at hn; cases hn
     · rw [hn]
       simp only [Bool.and_eq_true, Bool.not_eq_true', List.isEmpty_eq_false_iff]
-      exact ⟨⟨⟨hs, hx⟩, ht⟩, hb⟩
+      exact ⟨⟨⟨⟨hs, hx⟩, hph⟩, ht⟩, hb⟩
 
 theorem search_iff_scan (nodes : List Node) (idx : Index) (h : IndexConsistent nodes idx)
     (xts : List Str) (below : Option Nat) (i : Nat) :
     i ∈ search nodes idx xts below ↔ i ∈ scan nodes xts below := by
   rw [mem_search, mem_scan]
   constructor
-  · rintro ⟨⟨p, hp, ht, hi⟩, hb⟩
+  · rintro ⟨⟨p, hp, ht, hi⟩, hph, hb⟩
     obtain ⟨n, hn, hs, hx, hne⟩ := (h.mem_iff p.1 i).mp ⟨p, hp, rfl, hi⟩
-    exact ⟨n, hn, hs, by rw [hx]; exact hne, by rw [hx]; exact ht, hb⟩
-  · rintro ⟨n, hn, hs, hx, ht, hb⟩
+    refine ⟨n, hn, hs, by rw [hx]; exact hne, ?_, by rw [hx]; exact ht, hb⟩
+    unfold isPlaceholder at hph
+    rw [hn] at hph
+    exact hph
+  · rintro ⟨n, hn, hs, hx, hph, ht, hb⟩
     obtain ⟨p, hp, hpx, hi⟩ := (h.mem_iff n.xtype i).mpr ⟨n, hn, hs, rfl, hx⟩
-    exact ⟨⟨p, hp, by rw [hpx]; exact ht, hi⟩, hb⟩
+    refine ⟨⟨p, hp, by rw [hpx]; exact ht, hi⟩, ?_, hb⟩
+    unfold isPlaceholder
+    rw [hn]
+    exact hph
 
 theorem nodup_flatMap_filter {α β : Type} (l : List α) (f : α → List β) (p : α → Bool)
     (h : (l.flatMap f).Nodup) : ((l.filter p).flatMap f).Nodup := by
@@ -74,7 +81,7 @@ theorem nodup_flatMap_filter {α β : Type} (l : List α) (f : α → List β) (
 theorem search_nodup (nodes : List Node) (idx : Index) (h : IndexConsistent nodes idx)
     (xts : List Str) (below : Option Nat) : (search nodes idx xts below).Nodup := by
   unfold search
-  exact (nodup_flatMap_filter idx (·.2) _ h.nodup).sublist List.filter_sublist
+  exact ((nodup_flatMap_filter idx (·.2) _ h.nodup).sublist List.filter_sublist).sublist List.filter_sublist
 
 /-! ### strings: words, infixes, links -/
 
